@@ -134,9 +134,15 @@ func isValueNode(node *pg_query.Node) bool {
 }
 
 // normalizeOperandOrder turns <VALUE> = <ColName> and <VALUE> <> <ColName> into <ColName> = <VALUE> and <ColName> <> <VALUE>,
-// the only operand order the filter and the observers that rewrite the filtered expressions work with
+// the only operand order the filter and the observers that rewrite the filtered expressions work with.
+// <VALUE> IS [NOT] DISTINCT FROM <ColName> (an A_Expr named "=" of its own kind) is as symmetric as = and <>
 func normalizeOperandOrder(expr *pg_query.A_Expr) {
-	if expr.GetKind() != pg_query.A_Expr_Kind_AEXPR_OP || len(expr.GetName()) != 1 {
+	switch expr.GetKind() {
+	case pg_query.A_Expr_Kind_AEXPR_OP, pg_query.A_Expr_Kind_AEXPR_DISTINCT, pg_query.A_Expr_Kind_AEXPR_NOT_DISTINCT:
+	default:
+		return
+	}
+	if len(expr.GetName()) != 1 {
 		return
 	}
 	if operator := expr.GetName()[0].GetString_().GetSval(); operator != "=" && operator != "<>" {
